@@ -141,3 +141,17 @@ Fixpoint live_values {A} (l : list (option A)) : list A :=
   | None :: t => live_values t
   | Some v :: t => v :: live_values t
   end.
+(* ---- dicts as association lists in insertion order (table.py: GenPartition.v) -------------------
+   d.get(k): the value of the first entry whose key is == to k *)
+Fixpoint dict_get {K V} (keq : K -> K -> bool) (d : list (K * V)) (k : K) : option V :=
+  match d with
+  | [] => None
+  | (k', v) :: r => if keq k k' then Some v else dict_get keq r k
+  end.
+(* d[k] = v: the entry whose key is == to k keeps its place (and its stored key object) and gets the value v;
+   a new key is appended at the end *)
+Fixpoint dict_set {K V} (keq : K -> K -> bool) (d : list (K * V)) (k : K) (v : V) : list (K * V) :=
+  match d with
+  | [] => [(k, v)]
+  | (k', v') :: r => if keq k k' then (k', v) :: r else (k', v') :: dict_set keq r k v
+  end.
